@@ -91,12 +91,16 @@ impl std::error::Error for IdError {}
 struct TableFilter {
 	verdicts: HashMap<u32, u8>,
 	asked: Arc<Mutex<Vec<u32>>>,
+	/// (id, µs since t0) of every call
+	asked_at: Arc<Mutex<Vec<(u32, u64)>>>,
+	t0: Instant,
 }
 
 impl Filterer for TableFilter {
 	fn check_event(&self, event: &Event, _priority: Priority) -> Result<bool, RuntimeError> {
 		let Some(id) = id_of(event) else { return Ok(true) };
 		self.asked.lock().unwrap().push(id);
+		self.asked_at.lock().unwrap().push((id, us(self.t0)));
 		match self.verdicts.get(&id).copied().unwrap_or(0) {
 			0 => Ok(true),
 			1 => Ok(false),
@@ -144,6 +148,7 @@ pub struct Run {
 	pub sent: Vec<Sent>,
 	pub batches: Vec<Batch>,
 	pub asked: Vec<u32>,
+	pub asked_at: Vec<(u32, u64)>,
 	pub errors: Vec<ErrSeen>,
 	/// "ok", "elevated:<id>", "external", "other:<text>", "hang"
 	pub main_result: String,
@@ -232,7 +237,8 @@ pub fn run_with(sc: &Scenario, install: Option<&dyn Fn()>, side: Option<&Side>, 
 		config.event_channel_size = sc.chan.max(1) as usize;
 		config.error_channel_size = sc.err_chan.max(1) as usize;
 		config.throttle(Duration::from_millis(u64::from(sc.throttle)));
-		config.filterer(TableFilter { verdicts, asked: asked.clone() });
+		let asked_at = Arc::new(Mutex::new(Vec::new()));
+		config.filterer(TableFilter { verdicts, asked: asked.clone(), asked_at: asked_at.clone(), t0 });
 		let config_slot: Arc<Mutex<Option<Arc<Config>>>> = Arc::new(Mutex::new(None));
 
 		// ---- action handler (generation g); may replace itself from inside
@@ -336,6 +342,7 @@ pub fn run_with(sc: &Scenario, install: Option<&dyn Fn()>, side: Option<&Side>, 
 					sent: vec![],
 					batches: vec![],
 					asked: vec![],
+					asked_at: vec![],
 					errors: vec![],
 					main_result: format!("other:with_config failed: {e}"),
 					quit_sent_us: 0,
@@ -396,7 +403,10 @@ pub fn run_with(sc: &Scenario, install: Option<&dyn Fn()>, side: Option<&Side>, 
 			let _ = t.await;
 		}
 		// wait for quiescence (everything owed has been delivered) before requesting the quit
-		let deadline = Instant::now() + Duration::from_millis(1500 + 3 * u64::from(sc.throttle.max(sc.throttle_change.map_or(0, |c| c.1))));
+		// (a slow handler with throttle 0 gets one event per invocation: allow one handler duration per event sent)
+		let n_events: u64 = sc.producers.iter().map(|p| p.len() as u64).sum();
+		let deadline = Instant::now()
+			+ Duration::from_millis(1500 + 3 * u64::from(sc.throttle.max(sc.throttle_change.map_or(0, |c| c.1))) + u64::from(sc.handler_ms) * (n_events + 2));
 		let mut quiesced = false;
 		let mut main = main;
 		let mut main_early: Option<String> = None;
@@ -441,10 +451,12 @@ pub fn run_with(sc: &Scenario, install: Option<&dyn Fn()>, side: Option<&Side>, 
 		let batches = shared.batches.lock().unwrap().clone();
 		let errors = shared.errors.lock().unwrap().clone();
 		let asked = asked.lock().unwrap().clone();
+		let asked_at_v = asked_at.lock().unwrap().clone();
 		Run {
 			sent,
 			batches,
 			asked,
+			asked_at: asked_at_v,
 			errors,
 			main_result,
 			quit_sent_us,
